@@ -88,6 +88,9 @@ inline std::vector<GGroup> buildGroups(const Content& c, const Layout& l) {
         if (c.extra == "dim3" || c.extra == "all") { E.params.push_back(GParam::ints("I212", {2, 1, 2}, {1, 2, 3, 4})); E.params.push_back(GParam::floats("F1111", {1, 1, 1, 1}, {f2b(9.5f)})); E.params.push_back(GParam::strs("S322", 3, {2, 2}, {"a", "bc", "def", ""})); E.params.push_back(GParam::ints("I7D", {1, 2, 1, 1, 2, 1, 1}, {5, 6, 7, 8})); }
         if (c.extra == "str1d" || c.extra == "all") { E.params.push_back(GParam::strs("S1D", 6, {}, {"ABC"}, D("padded 1-D string"))); E.params.push_back(GParam::strs("S1DF", 5, {}, {"hello"})); }
         if (c.extra == "empty" || c.extra == "all") { E.params.push_back(GParam::ints("IE", {0}, {})); E.params.push_back(GParam::floats("FE20", {2, 0}, {})); E.params.push_back(GParam::strs("SE", 0, {0}, {})); E.params.push_back(GParam::strs("SE41", 4, {0}, {})); E.params.push_back(GParam::strs("S01", 0, {1}, {""})); }
+        if (c.extra == "ctrlws" || c.extra == "all") {   // text whose last characters are control white-space: only SPACES are padding
+            E.params.push_back(GParam::strs("TABEND", 8, {2}, {"HEEL\t", "ok"})); E.params.push_back(GParam::strs("CRLF", 12, {}, {"first\r\n"})); E.params.push_back(GParam::strs("FF", 4, {1}, {"\f"}));
+        }
         if (c.extra == "char0d") { GParam p; p.name = "C0D"; p.type = -1; p.data = "x"; E.params.push_back(p); }
         if (c.extra == "custom") for (auto& p : c.customParams) E.params.push_back(p);
         if (c.extra == "int0") { E.params.push_back(GParam::ints("ONE", {1}, {42})); E.params.push_back(GParam::floats("FONE", {1}, {f2b(4.25f)})); }
@@ -164,7 +167,7 @@ inline std::vector<Dim> dims(bool thorough) {
     d.push_back({"events", {"0", "2", "18"}});
     d.push_back({"rates", {"100x2", "50x2", "29.97x2", "23.976x2", "0x1"}});
     d.push_back({"values", {"plain", "special"}});
-    d.push_back({"extra", {"small", "none", "bytes", "dim3", "str1d", "empty", "int0", "all", "char0d"}});
+    d.push_back({"extra", {"small", "none", "bytes", "dim3", "str1d", "empty", "int0", "all", "char0d", "ctrlws"}});
     d.push_back({"descs", {"short", "none", "lower", "d64", "d127", "d128", "d255"}});
     d.push_back({"names", {"std", "long"}});
     d.push_back({"hdrwords", {"std", "odd"}});
